@@ -816,6 +816,88 @@ def rule_r10(ctx):
     return rr
 
 
+def _stmt_paths(stmts):
+    """Paths through a statement list made of if/elif/else, continue/break/return/raise and simple
+    statements: list of (list of simple statements executed, terminator or None)."""
+    paths = [([], None)]
+    for st in stmts:
+        new = []
+        for done, term in paths:
+            if term is not None:
+                new.append((done, term))
+                continue
+            if isinstance(st, ast.If):
+                for sub, t in _stmt_paths(st.body):
+                    new.append((done + [st.test] + sub, t))
+                for sub, t in _stmt_paths(st.orelse):
+                    new.append((done + sub, t))
+            elif isinstance(st, (ast.Continue, ast.Break, ast.Return, ast.Raise)):
+                new.append((done, type(st).__name__))
+            else:
+                new.append((done + [st], None))
+        paths = new
+    return paths
+
+
+def rule_r11(ctx):
+    """generate_nsp: the namespace stack and the symtable walk stack move together."""
+    rr = RuleResult("C06-R11", "namespace construction: a namespace is pushed iff the walk descends into that symbol table; both stacks are popped together")
+    rr.floor = 2
+    mi = ctx.prog.modules.get("oneliner.namespaces")
+    fi = mi.functions.get("generate_nsp") if mi else None
+    if fi is None:
+        raise AnalysisError("anchor oneliner.namespaces:generate_nsp vanished")
+    loops = [n for n in ast.walk(fi.node) if isinstance(n, ast.While)]
+    tries = [n for lp in loops for n in ast.walk(lp) if isinstance(n, ast.Try)]
+    if len(tries) != 1 or not tries[0].orelse:
+        raise AnalysisError("C06-R11: generate_nsp no longer has the shape `try: next(...) except StopIteration: pop; else: descend`")
+    tr = tries[0]
+
+    def stack_ops(nodes, attr):
+        out = {}
+        for n in nodes:
+            for c in ast.walk(n):
+                if isinstance(c, ast.Call) and isinstance(c.func, ast.Attribute) and c.func.attr == attr and isinstance(c.func.value, ast.Name):
+                    out[c.func.value.id] = out.get(c.func.value.id, 0) + 1
+        return out
+
+    # which list holds namespaces (gets Namespace* instances appended) and which holds iterators
+    ns_stack = walk_stack = None
+    for c in ast.walk(ast.Module(body=tr.orelse, type_ignores=[])):
+        if isinstance(c, ast.Call) and isinstance(c.func, ast.Attribute) and c.func.attr == "append" and isinstance(c.func.value, ast.Name) and c.args:
+            txt = ast.unparse(c.args[0])
+            if "Namespace" in txt:
+                ns_stack = c.func.value.id
+            elif "get_children" in txt or "iter(" in txt:
+                walk_stack = c.func.value.id
+    if not ns_stack or not walk_stack:
+        raise AnalysisError("C06-R11: the two stacks of generate_nsp were not identified")
+    rr.instances += 1
+    pops = {}
+    for h in tr.handlers:
+        for k, v in stack_ops(h.body, "pop").items():
+            pops[k] = pops.get(k, 0) + v
+    if pops.get(ns_stack) == 1 and pops.get(walk_stack) == 1:
+        rr.ok("pop-together", sample={"rule": "C06-R11", "handler_pops": pops})
+    else:
+        rr.fail("C06-R11|generate_nsp|pop-pairing", f"{fi.where()}: when a symbol table is exhausted the handler pops {pops} (expected one pop of `{ns_stack}` and one of `{walk_stack}`): later scopes are built under the wrong parent namespace", where=fi.where(), what="pops")
+    for done, term in _stmt_paths(tr.orelse):
+        rr.instances += 1
+        a = stack_ops(done, "append")
+        pushed_ns, pushed_walk = a.get(ns_stack, 0), a.get(walk_stack, 0)
+        conds = [ast.unparse(x)[:40] for x in done if isinstance(x, ast.expr)]
+        what = f"path|{'&'.join(conds)[:80]}|{term}"
+        if pushed_ns != pushed_walk or pushed_ns > 1:
+            rr.fail(
+                "C06-R11|generate_nsp|push-pairing",
+                f"{fi.where()}: on the path [{' / '.join(conds)[:120]}] {pushed_ns} namespace(s) are pushed but the walk descends {pushed_walk} time(s): the namespace stack and the symbol-table walk get out of step",
+                where=fi.where(), what=what,
+            )
+        else:
+            rr.ok(what)
+    return rr
+
+
 def rule_r8(ctx):
     from .common import cached
     from .exprcopy import transf_entry_paths
@@ -845,7 +927,7 @@ def rule_r8(ctx):
 
 
 RULES = [
-    ("C06-R8", rule_r8), ("C06-R9", rule_r9), ("C06-R10", rule_r10),
+    ("C06-R8", rule_r8), ("C06-R9", rule_r9), ("C06-R10", rule_r10), ("C06-R11", rule_r11),
     ("C06-R1", rule_r1), ("C06-R2", rule_r2), ("C06-R3", rule_r3), ("C06-R4", rule_r4),
     ("C06-R5", rule_r5), ("C06-R6", rule_r6), ("C06-R7", rule_r7),
 ]
